@@ -84,6 +84,13 @@ class Part:
                 rc = mod.main(json.loads(json.dumps(params)))
         except BaseException as e:  # noqa: BLE001
             import traceback
+            tb = traceback.extract_tb(e.__traceback__)
+            if tb and tb[-1].filename.startswith(os.path.join(REPO, "sigpyproc") + os.sep):
+                # the library itself raised on this (valid) witness: a candidate violation, decided by the replay
+                src = (f"import sys, json\nfrom symx.concrete import {driver}\n"
+                       f"sys.exit({driver}.main(json.loads({json.dumps(json.dumps(params))})))\n")
+                self.cands.append((key, f"{desc}: the real library raised {type(e).__name__}: {e} on a witness of a path the harness decided as holding", src, params))
+                return False
             self.inconcl.append(f"path witness {key}: driver raised {type(e).__name__}: {e} with {json.dumps(params)[:400]} :: {traceback.format_exc()[-700:]}")
             return False
         if rc == 0:
@@ -261,8 +268,14 @@ class Run:
         p = subprocess.run([PY, path], capture_output=True, text=True, timeout=timeout, env=env)
         rc, out = p.returncode, p.stdout + p.stderr
         if rc == 1 and "MISMATCH" not in out:
-            # an uncaught exception also exits with 1: only a driver that *states* the mismatch has reproduced something
-            rc = 70
+            # an uncaught exception also exits with 1: only a driver that *states* the mismatch has reproduced something ...
+            frames = [ln for ln in out.splitlines() if ln.lstrip().startswith('File "')]
+            lib = os.path.join(REPO, "sigpyproc") + os.sep
+            if "Traceback" in out and frames and lib in frames[-1]:
+                # ... or the library itself raised on the (valid) scenario the driver was exercising
+                out += "\nMISMATCH: the library raised on a valid scenario (innermost frame inside sigpyproc)\n"
+            else:
+                rc = 70
         return rc, out[-2000:]
 
     def violation(self, key, desc, replay_src, model=None):
